@@ -72,6 +72,7 @@ type Config struct {
 var initWhitelist = map[string]bool{
 	"github.com/asticode/go-astikit": true,
 	"github.com/asticode/go-astits":  true,
+	"github.com/asticode/go-astisub/astisub": true,
 	"bufio":                          true,
 	"encoding/binary":                true,
 	"io":                             true,
